@@ -24,31 +24,42 @@ J1 == <<123, 34, 97, 34, 58, 49, 125>>      \* {"a":1}
 J2 == <<34, 45, 45, 34>>                   \* "--"
 
 Profiles == <<
-    [name |-> <<97>>,                  fkind |-> 0, fname |-> <<>>,                ctype |-> NONE,       hv |-> 0],
-    [name |-> <<233, 59, 61, 32, 97>>, fkind |-> 1, fname |-> <<102, 46, 116>>,    ctype |-> T_PLAIN_CS, hv |-> 1],
-    [name |-> <<97>>,                  fkind |-> 2, fname |-> <<8364, 32, 120>>,   ctype |-> T_OCTET,    hv |-> 2],
-    [name |-> <<110, 45, 49>>,         fkind |-> 1, fname |-> <<>>,                ctype |-> T_PLAIN,    hv |-> 3] >>
+    [name |-> <<97>>,                  fkind |-> 0, fname |-> <<>>, fback |-> <<>>,                ctype |-> NONE,       hv |-> 0],
+    [name |-> <<233, 59, 61, 32, 97>>, fkind |-> 1, fname |-> <<102, 46, 116>>, fback |-> <<>>,    ctype |-> T_PLAIN_CS, hv |-> 1],
+    [name |-> <<97>>,                  fkind |-> 2, fname |-> <<8364, 32, 120>>, fback |-> <<>>,   ctype |-> T_OCTET,    hv |-> 2],
+    [name |-> <<110, 45, 49>>,         fkind |-> 1, fname |-> <<>>, fback |-> <<>>,                ctype |-> T_PLAIN,    hv |-> 3] >>
 (* file names in RFC 5987 form with 2-, 3- and 4-byte sequences / without any escape (corruption exports) *)
 XProfiles == <<
-    [name |-> <<97>>, fkind |-> 2, fname |-> <<233, 8364, 128512>>,      ctype |-> NONE, hv |-> 0],
-    [name |-> <<97>>, fkind |-> 2, fname |-> <<97, 46, 116, 120, 116>>,  ctype |-> NONE, hv |-> 0] >>
+    [name |-> <<97>>, fkind |-> 2, fname |-> <<233, 8364, 128512>>, fback |-> <<>>,      ctype |-> NONE, hv |-> 0],
+    [name |-> <<97>>, fkind |-> 2, fname |-> <<97, 46, 116, 120, 116>>, fback |-> <<>>,  ctype |-> NONE, hv |-> 0] >>
 (* names / file names with escaped quotes, backslashes and semicolons:  q";b\c  and  say "hi";x.txt ,  \";  *)
 QProfiles == <<
     [name |-> <<113, 34, 59, 98, 92, 99>>, fkind |-> 1,
-     fname |-> <<115, 97, 121, 32, 34, 104, 105, 34, 59, 120, 46, 116, 120, 116>>, ctype |-> NONE, hv |-> 0],
-    [name |-> <<92, 34, 59>>, fkind |-> 0, fname |-> <<>>, ctype |-> T_PLAIN, hv |-> 1] >>
+     fname |-> <<115, 97, 121, 32, 34, 104, 105, 34, 59, 120, 46, 116, 120, 116>>, fback |-> <<>>, ctype |-> NONE, hv |-> 0],
+    [name |-> <<92, 34, 59>>, fkind |-> 0, fname |-> <<>>, fback |-> <<>>, ctype |-> T_PLAIN, hv |-> 1] >>
+(* both file name forms (plain ASCII fallback + the real name, either order) and text parts whose charset
+   names no decoder:  undefined ,  utf<NUL>8 ,  the empty label *)
+T_CS == T_PLAIN \o V_CHARSET
+FProfiles == <<
+    [name |-> <<116>>, fkind |-> 3, fname |-> <<110, 97, 239, 118, 101>>, fback |-> <<110, 97, 95, 118, 101>>,
+     ctype |-> T_CS \o <<117, 110, 100, 101, 102, 105, 110, 101, 100>>, hv |-> 0],
+    [name |-> <<116>>, fkind |-> 4, fname |-> <<233, 46, 116>>, fback |-> <<95, 46, 116>>,
+     ctype |-> T_CS \o <<117, 116, 102, 0, 56>>, hv |-> 1],
+    [name |-> <<116>>, fkind |-> 0, fname |-> <<>>, fback |-> <<>>, ctype |-> T_CS, hv |-> 0] >>
 (* charset labels one edit away from "UTF-8" (edit bytes - X 2 A b): the ones CPython's codec registry
    resolves to UTF-8; every other label of that neighbourhood made of word characters and dashes is unknown
    to it (table computed once with codecs.lookup, part of the trusted base) *)
 Utf8Labels == { <<85, 84, 70, 45, 56>>, <<85, 84, 70, 56>>, <<85, 84, 70, 45>>, <<85, 84, 70, 45, 45>>, <<85, 84, 70, 45, 45, 56>>,
                 <<85, 84, 70, 45, 56, 45>>, <<45, 85, 84, 70, 45, 56>> }
-MCCharsetClass(l) == IF l \in Utf8Labels THEN "utf8" ELSE "bogus"
-JProfile == [name |-> <<106>>, fkind |-> 0, fname |-> <<>>, ctype |-> T_JSON, hv |-> 0]
+Upper(l) == [i \in 1..Len(l) |-> IF l[i] >= 97 /\ l[i] <= 122 THEN l[i] - 32 ELSE l[i]]
+MCCharsetClass(l) == IF Upper(l) \in Utf8Labels THEN "utf8" ELSE "bogus"        \* (labels are case-insensitive)
+JProfile == [name |-> <<106>>, fkind |-> 0, fname |-> <<>>, fback |-> <<>>, ctype |-> T_JSON, hv |-> 0]
 
-MkPart(pr, c) == [name |-> pr.name, fkind |-> pr.fkind, fname |-> pr.fname, ctype |-> pr.ctype, hv |-> pr.hv, content |-> c]
+MkPart(pr, c) == [name |-> pr.name, fkind |-> pr.fkind, fname |-> pr.fname, fback |-> pr.fback, ctype |-> pr.ctype, hv |-> pr.hv, content |-> c]
 MCPartPool == {MkPart(Profiles[i], Contents[j]) : i \in ProfileSel \cap 1..4, j \in ContentSel}
               \cup {MkPart(XProfiles[i - 4], Contents[j]) : i \in ProfileSel \cap 5..6, j \in ContentSel}
               \cup {MkPart(QProfiles[i - 6], Contents[j]) : i \in ProfileSel \cap 7..8, j \in ContentSel}
+              \cup {MkPart(FProfiles[i - 8], Contents[j]) : i \in ProfileSel \cap 9..11, j \in ContentSel}
               \cup (IF UseJson THEN {MkPart(JProfile, J1), MkPart(JProfile, J2)} ELSE {})
 
 B70S == <<32, 32>> \o SubSeq(B70, 3, 70)          \* 70 characters, the first two are spaces
